@@ -116,7 +116,7 @@ func runValid(c validCase) (pbt.Result, error) {
 var _ = pbt.Register(pbt.Spec[validCase]{
 	Property: "C03", Name: "valid",
 	Rule:     "value tree (depth<=4; structs 0-3 data words x 0-3 pointers incl. zero-sized; all 8 list kinds; composite lists with/without pointers and n=0; caps) encoded by ref.Encode under a drawn plan (1-5 segments, object placement/order, per-edge near/far/double-far, junk gaps, non-canonical zero-size offsets), opened via MultiSegment/SingleSegment/Unmarshal/UnmarshalPacked; oracle: lock-step walk of the public API against the independent decoder: every struct size, every data read at widths 1/8/16/32/64 at all offsets incl. past-the-end (=0), every Ptr(i) incl. past-the-end (=null), HasPtr, list lengths/elements through typed wrappers, primitive-list elements viewed as structs, composite lists viewed through primitive and pointer wrappers, Text/Data bytes, capability indices. Non-trivial: depth>=2 and the encoding has a far or double-far pointer, a composite list or a zero-sized struct.",
-	Quick:    12000, Thorough: 100000,
+	Quick:    12000, Thorough: 250000,
 	Gen: func(t *rapid.T) validCase {
 		return validCase{
 			Value: gen.ValueTree(t, gen.TreeOpts{MaxDepth: rapid.IntRange(1, 4).Draw(t, "depth"), Caps: true, MaxCap: 4}),
@@ -175,7 +175,7 @@ func runHostile(c hostileCase) (pbt.Result, error) {
 var _ = pbt.Register(pbt.Spec[hostileCase]{
 	Property: "C03", Name: "hostile-bounds",
 	Rule:     "a valid encoding with 1-4 words overwritten by words from the hostile-pointer grammar (struct/list/far/double-far/cap/other/tag words with boundary targets, sizes and counts) and segments truncated; oracle: lock-step walk; whenever the API dereferences a pointer successfully the independent decoder must find the target extent inside its segment (bounds/segment-range failures of the reference are violations, shape-only differences are not) and for resolvable pointers nothing is asserted beyond bounds. Non-trivial: >=1 successful dereference and >=1 API error in the same walk.",
-	Quick:    30000, Thorough: 300000,
+	Quick:    30000, Thorough: 700000,
 	Gen: func(t *rapid.T) hostileCase {
 		v := gen.ValueTree(t, gen.TreeOpts{MaxDepth: rapid.IntRange(1, 3).Draw(t, "depth"), Caps: true, MaxCap: 4})
 		plan := gen.Plan(t, 4)
